@@ -10,13 +10,20 @@ import (
 func init() {
 	register("C07", func(r *Rand, p *Plan, t string) { genRef(r, p, t, "C07") })
 	register("C10", func(r *Rand, p *Plan, t string) {
-		if r.Chance(6) {
-			genReloadE2E(r, p, t, true)
+		if r.Chance(8) {
+			genReloadE2E(r, p, t, r.Chance(50))
 			return
 		}
 		genRef(r, p, t, "C10")
 	})
-	register("C11", func(r *Rand, p *Plan, t string) { genRef(r, p, t, "C11") })
+	register("C11", func(r *Rand, p *Plan, t string) {
+		if r.Chance(10) {
+			// rights removed by a reload must be gone for connections that arrive afterwards
+			genReloadE2E(r, p, t, false)
+			return
+		}
+		genRef(r, p, t, "C11")
+	})
 	register("C12", func(r *Rand, p *Plan, t string) {
 		if r.Chance(12) {
 			genSyslogDirect(r, p, t)
@@ -822,6 +829,12 @@ func mutateDoc(r *Rand, d model.Doc) model.Doc {
 				g := &u.Groups[0]
 				g.Commands, g.Services = nil, nil
 			}
+		}
+	case 11:
+		// everybody is moved out of the scopes that have a secret configuration: the file
+		// still parses, and nothing can be built from it
+		for i := range q.Users {
+			q.Users[i].Scopes = []string{"decommissioned"}
 		}
 	case 9:
 		// a brand new, smaller document
